@@ -4,11 +4,15 @@ package binary
 
 import (
 	"bytes"
+
+	"go.uber.org/thriftrw/wire"
 )
 
 func init() {
 	verifHarnesses["h02"] = h02
 	verifHarnesses["h02_witness"] = h02_witness
+	verifHarnesses["h02c"] = h02c
+	verifHarnesses["h02big"] = h02big
 }
 
 // h02: C02 — encode == spec bytes (value-based and streaming writer), decode
@@ -66,4 +70,66 @@ func h02() {
 func h02_witness() {
 	h02()
 	verifAssert(false, "reachable")
+}
+
+// h02c: the streaming reader returns the original value under every
+// segmentation of the byte stream into reads (each Read returns an arbitrary
+// count >= 1, plus one zero-length read).
+func h02c() {
+	depth := verifParam("depth")
+	budget := verifParam("budget")
+	k := verifParam("k")
+	maxBin := verifParam("bin")
+	t := zzChooseType(depth)
+	v := zzBuild(t, depth, &budget, k, maxBin)
+	spec := zzSpecEncode(v, nil)
+	ch := &zzChunky{b: spec, zeros: 1, free: -1}
+	sr := NewStreamReader(ch)
+	sn, err := zzStreamRead(sr, t)
+	sr.Close()
+	verifAssert(err == nil, "chunked-stream-read-ok")
+	verifAssert(ch.off == len(spec), "chunked-stream-read-consumed")
+	same, diff := zzDiff(sn, v)
+	verifAssert(same, "chunked-stream-read-shape")
+	verifAssert(diff == 0, "chunked-stream-read-leaves")
+	verifReached("end")
+}
+
+// h02big: binaries just above the 1 MiB threshold (a different code path in
+// ReadBinary) round-trip byte for byte through both decoders. The content is
+// a fixed pattern except for a few symbolic bytes (first, middle, last).
+func h02big() {
+	const mib = 1 << 20
+	l := mib + 1 + verifChoice(2)*(mib/2) // 1 MiB + 1, or 1.5 MiB + 1
+	bin := make([]byte, l)
+	for i := range bin {
+		bin[i] = byte(i*7 + 3)
+	}
+	bin[0], bin[l/2], bin[l-1] = verifByte(), verifByte(), verifByte()
+	v := &zzNode{t: wire.TStruct, ids: []int16{1, 2}, kids: []*zzNode{{t: wire.TBinary, bin: bin}, {t: wire.TI8, num: uint64(verifByte())}}}
+	spec := zzSpecEncode(v, nil)
+
+	var buf bytes.Buffer
+	verifAssert(Default.Encode(zzToWire(v), &buf) == nil, "encode-ok")
+	verifAssert(buf.Len() == len(spec), "encode-len")
+
+	dv, err := Default.Decode(bytes.NewReader(spec), wire.TStruct)
+	verifAssert(err == nil, "decode-ok")
+	dn, err := zzFromWire(dv)
+	verifAssert(err == nil, "decode-force-ok")
+	verifAssert(len(dn.kids) == 2 && len(dn.kids[0].bin) == l, "decode-binary-len")
+	got := dn.kids[0].bin
+	verifAssert(got[0] == bin[0] && got[l/2] == bin[l/2] && got[l-1] == bin[l-1] && got[1] == bin[1] && got[l-2] == bin[l-2], "decode-binary-bytes")
+	verifAssert(dn.kids[1].num == v.kids[1].num, "decode-field-after-binary")
+
+	os := &zzOneShot{b: spec}
+	sr := NewStreamReader(os)
+	sn, err := zzStreamRead(sr, wire.TStruct)
+	sr.Close()
+	verifAssert(err == nil, "stream-read-ok")
+	verifAssert(len(sn.kids) == 2 && len(sn.kids[0].bin) == l, "stream-read-binary-len")
+	g2 := sn.kids[0].bin
+	verifAssert(g2[0] == bin[0] && g2[l/2] == bin[l/2] && g2[l-1] == bin[l-1], "stream-read-binary-bytes")
+	verifAssert(sn.kids[1].num == v.kids[1].num, "stream-read-field-after-binary")
+	verifReached("end")
 }
